@@ -649,7 +649,7 @@ func c19Gen(g *Gen) {
 			emit(t, mode, idx)
 		}
 	}
-	dExh, iExh, dSample, iSample := 2, 1, 40, 20
+	dExh, iExh, dSample, iSample := 2, 2, 40, 20
 	if g.Thorough() {
 		dExh, iExh, dSample, iSample = 3, 2, 600, 300
 	}
@@ -694,6 +694,8 @@ func c19Gen(g *Gen) {
 		sample(t, "T", iExh+1, iSample)
 		if g.Thorough() {
 			sample(t, "I", iExh+2, iSample/2)
+			sample(t, "T", iExh+2, iSample/2)
+			sample(t, "D", dExh+2, dSample/2)
 		}
 	}
 }
